@@ -8,5 +8,5 @@ for p in "$@"; do
   VERIF_SEED=${VERIF_SEED:-0} ./check $p quick > /tmp/ben-$name-$p.log 2>&1; rc=$?
   echo "$name $p exit=$rc $(grep -c '^VIOLATION' /tmp/ben-$name-$p.log) violation lines; $(grep 'case=' /tmp/ben-$name-$p.log | head -1 | cut -c1-260)"
 done
-git -C /repo checkout -- .
+git -C /repo checkout -- .; git -C /repo clean -fdq src
 git -C /repo status --short | head -3
